@@ -30,7 +30,42 @@ type QCase struct {
 
 type namedChan chan int
 
+// runQueuedEmpty: the zero-sized element type chan struct{}.
+func runQueuedEmpty(c QCase) pbt.Outcome {
+	ch := make(chan struct{}, c.Cap)
+	for i := 0; i < c.Fill; i++ {
+		ch <- struct{}{}
+	}
+	if c.Closed {
+		close(ch)
+	}
+	var n int
+	var pan any
+	func() {
+		defer func() { pan = recover() }()
+		if c.Full {
+			n = chans.RecvQueuedFull(ch, make([]struct{}, max(c.Limit, 0)))
+		} else {
+			n = len(chans.RecvQueued(ch, c.Limit))
+		}
+	}()
+	if pan != nil {
+		return pbt.Fail("%s on a chan struct{} (cap=%d fill=%d closed=%v) panicked: %v", fn(c), c.Cap, c.Fill, c.Closed, pan)
+	}
+	want := min(c.Fill, max(c.Limit, 0))
+	if n != want {
+		return pbt.Fail("%s on a chan struct{} (cap=%d fill=%d closed=%v) returned %d values, want %d", fn(c), c.Cap, c.Fill, c.Closed, n, want)
+	}
+	if len(ch) != c.Fill-want {
+		return pbt.Fail("after %s on a chan struct{} %d values are left, want %d", fn(c), len(ch), c.Fill-want)
+	}
+	return pbt.Outcome{Evals: 1, NonTrivial: c.Closed && c.Fill >= 1 && c.Limit > c.Fill, Labels: []string{"zero-sized-elements"}}
+}
+
 func RunQueued(c QCase) pbt.Outcome {
+	if c.Kind == 3 {
+		return runQueuedEmpty(c)
+	}
 	ch := make(chan int, c.Cap)
 	for i := 1; i <= c.Fill; i++ {
 		ch <- i * 7 // serial numbers, never the zero value
@@ -178,7 +213,7 @@ func fn(c QCase) string {
 
 var specQueued = pbt.Register(&pbt.Spec[QCase]{
 	Property: "C19", Name: "C19.queued",
-	Rule: "exhaustive grid: {RecvQueued, RecvQueuedFull} x channel kind {chan, <-chan, named} x capacity 0..6 x fill 0..cap x closed? x limit -1..8 (RecvQueuedFull also with 1 and 3 slots of spare capacity behind the buffer) (thorough: capacity 0..12, limit -1..14); queued values are non-zero serials; " +
+	Rule: "exhaustive grid: {RecvQueued, RecvQueuedFull} x channel kind {chan, <-chan, named} x capacity 0..6 x fill 0..cap x closed? x limit -1..8 (RecvQueuedFull also with 1 and 3 slots of spare capacity behind the buffer), plus capacities 33..300 with limits around 32/64/100/1000, plus the zero-sized element type chan struct{} (thorough: capacity 0..12, limit -1..14); queued values are non-zero serials; " +
 		"oracle: result == the first min(fill,limit) queued values in FIFO order, the remainder still in the channel in order, nothing else (no zero padding after close), untouched buffer slots untouched, " +
 		"and the call never blocks (the call runs in a goroutine; 'blocked' is established from its goroutine state, not from a timer); non-trivial = closed with fill>=1 and limit>fill",
 	Enum: func(shard, shards int, tier string, yield func(QCase) bool) {
@@ -205,6 +240,32 @@ var specQueued = pbt.Register(&pbt.Spec[QCase]{
 										}
 									}
 								}
+							}
+						}
+					}
+				}
+				// larger channels: more than 32 / 64 queued values drained by one call
+				for _, cp := range []int{33, 40, 64, 65, 100, 300} {
+					for _, fill := range []int{cp, cp - 1, 33} {
+						for _, closed := range []bool{false, true} {
+							for _, lim := range []int{31, 32, 33, 34, 64, 65, 100, 1000} {
+								if !yield(QCase{Full: full, Cap: cp, Fill: fill, Closed: closed, Limit: lim, Kind: kind}) {
+									return
+								}
+							}
+						}
+					}
+				}
+			}
+		}
+		// zero-sized element type
+		for _, full := range []bool{false, true} {
+			for cp := 0; cp <= 5; cp++ {
+				for fill := 0; fill <= cp; fill++ {
+					for _, closed := range []bool{false, true} {
+						for lim := 0; lim <= 6; lim++ {
+							if !yield(QCase{Full: full, Cap: cp, Fill: fill, Closed: closed, Limit: lim, Kind: 3}) {
+								return
 							}
 						}
 					}
